@@ -124,11 +124,34 @@ def r3(ctx, rep):
     syn = ctx.syn
     k = syn.fn("keywords::is_keyword", crate="prqlc")
     txt = show_stmts(k["body"], maxdepth=10)
-    Ak = __import__("alpha").Inliner(k)
-    tl = Ak.show(tail_expr(k["body"]), strip=True).replace(" ", "")
+    # truth table of the function over (in the shared table, in the dialect's table); both look-ups must use the UPPER-CASED name
+    import alpha
+    import boolfn
+    Ak = alpha.Inliner(k)
     kp = [p_["name"] for p_ in k.get("params", []) if isinstance(p_, dict) and "name" in p_] or ["ident", "dialect"]
-    up = f"{kp[0]}.to_ascii_uppercase()"
-    rep.check(tl in (f"(sql_keywords().contains({up})||dialect_keywords({kp[1]}).contains({up}))", f"(dialect_keywords({kp[1]}).contains({up})||sql_keywords().contains({up}))"), "lookup",
+    seen_atoms = set()
+    ok = True
+    try:
+        for a_ in (True, False):
+            for b_ in (True, False):
+                def atom(t, a_=a_, b_=b_):
+                    t2 = t.replace(" ", "")
+                    m1 = re.fullmatch(r"sql_keywords\(\)\.contains\((.+)\)", t2)
+                    m2 = re.fullmatch(r"dialect_keywords\(%s\)\.contains\((.+)\)" % re.escape(kp[1]), t2)
+                    # answer only for the fully inlined form, so that the argument shows where the looked-up text comes from
+                    up = f"{kp[0]}.to_ascii_uppercase()"
+                    if m1 and up in m1.group(1):
+                        seen_atoms.add(("shared", m1.group(1)))
+                        return a_
+                    if m2 and up in m2.group(1):
+                        seen_atoms.add(("dialect", m2.group(1)))
+                        return b_
+                    return None
+                ok = ok and boolfn.ev_body(k["body"], atom, Ak) == (a_ or b_)
+    except boolfn.Unknown:
+        ok = False
+    upper = all(f"{kp[0]}.to_ascii_uppercase()" in arg for _, arg in seen_atoms) and {x for x, _ in seen_atoms} == {"shared", "dialect"}
+    rep.check(ok and upper, "lookup",
               "is_keyword must upper-case the identifier and consult both the shared and the dialect's table", file=k["file"], line=k["l"], fn=k["path"])
     n_words = 0
     for st in syn.statics:
